@@ -1,1 +1,10 @@
+//! Binds the real library (/repo, path dependency) to the reference model.
+pub mod bridge;
+pub mod dynrec;
+pub mod entry;
+pub mod err;
+pub mod rt;
 
+pub use bridge::{Bridge, VarI, VarU};
+pub use entry::{derived, entry, entry_vec, DecRun, EncRun, Entry, Sink, ALL_SINKS};
+pub use err::{guarded, guarded_plain, install_panic_hook, ErrKind, Out};
